@@ -70,7 +70,8 @@ def run_cases(ctx, items, label, big):
     nproc = 16
     chunks = [(items[i::nproc], ctx.work, big) for i in range(nproc) if items[i::nproc]]
     with mp.get_context('fork').Pool(len(chunks), initializer=H.limit_resources) as pool:
-        results = [r for part in pool.map(_worker, chunks) for r in part]
+        from vlib import cov
+        results = [r for part in cov.pmap(ctx, pool, _worker, chunks) for r in part]
     good = [r for r in results if 'crash' not in r]
     good.sort(key=lambda r: r['name'])
     J = H.load_impl()
